@@ -130,6 +130,37 @@ def main():
         with open(os.path.join(dst, 'meta.json'), 'w') as f:
             json.dump(meta, f, indent=1)
         print(name, {k: c['exit'] for k, c in checks.items()})
+    elif cmd == 'recheck-all':
+        # every kept change against the current checks and the current /repo: the check of its own property must still exit 1
+        from concurrent.futures import ThreadPoolExecutor
+        names = sorted(n for n in os.listdir(os.path.join(HERE, 'seeded')) if os.path.exists(os.path.join(HERE, 'seeded', n, 'patch.diff')))
+        only = sys.argv[3:] if len(sys.argv) > 3 else None
+
+        def one(name):
+            prop = name[:3]
+            if only and prop not in only and name not in only:
+                return None
+            d = tempfile.mkdtemp(prefix='seedrun-', dir='/var/tmp')
+            try:
+                sh(['rsync', '-a', '--exclude', '.git', '/repo/', d + '/'])
+                sh(['git', 'init', '-q'], cwd=d)
+                a = sh(['git', 'apply', '--whitespace=nowarn', os.path.join(HERE, 'seeded', name, 'patch.diff')], cwd=d)
+                if a.returncode != 0:
+                    return (name, 'PATCH-DOES-NOT-APPLY', a.stdout.strip()[-200:])
+                r = run_checks(name, [prop], d)[prop]
+                return (name, 'caught' if r['exit'] == 1 else 'NOT-CAUGHT exit=%s' % r['exit'], (r['mechanisms'] or [''])[0][:120])
+            finally:
+                shutil.rmtree(d, ignore_errors=True)
+        bad = 0
+        with ThreadPoolExecutor(int(pid) if pid.isdigit() else 4) as ex:
+            for r in ex.map(one, names):
+                if r is None:
+                    continue
+                print('%-70s %s  %s' % r, flush=True)
+                if r[1] != 'caught':
+                    bad += 1
+        print('not caught / not applicable: %d' % bad)
+        return 1 if bad else 0
     elif cmd == 'apply-check':
         src = os.path.join(HERE, 'seeded', pid)
         a = sh(['git', '-C', '/repo', 'apply', '--whitespace=nowarn', os.path.join(src, 'patch.diff')])
